@@ -1,9 +1,17 @@
 use crate::engine::Runner;
 
+pub mod c15;
+pub mod c16;
 pub mod c21;
+pub mod c29;
 
 pub type CheckFn = fn(&mut Runner);
 
 pub fn registry() -> Vec<(&'static str, CheckFn)> {
-    vec![("C21", c21::run as CheckFn)]
+    vec![
+        ("C15", c15::run as CheckFn),
+        ("C16", c16::run as CheckFn),
+        ("C21", c21::run as CheckFn),
+        ("C29", c29::run as CheckFn),
+    ]
 }
